@@ -844,7 +844,8 @@ def _ap_assign(kind, u, new):
     elif kind == "set":
         u.svalues = set(new)
     else:
-        u.dvalues = {"k%d" % v: v for v in new}
+        # values differ from the initial ones (initial: k<v> -> v), so keys that already exist must be updated
+        u.dvalues = {"k%d" % v: v + 100 for v in new}
 
 
 def _ap_assign_check(kind, u, proxy, before, new, got_res):
@@ -859,7 +860,7 @@ def _ap_assign_check(kind, u, proxy, before, new, got_res):
     else:
         col = list(dict.values(u.dict_assocs))
         # (existing keys keep their place: compared as a mapping, like dict.__eq__)
-        good = {k: o.v for k, o in dict.items(u.dict_assocs)} == {"k%d" % v: v for v in new} == dict(u.dvalues)
+        good = {k: o.v for k, o in dict.items(u.dict_assocs)} == {"k%d" % v: v + 100 for v in new} == dict(u.dvalues)
     return good and _one_for_one(before, col)
 
 
